@@ -25,7 +25,8 @@ package main
 // Oracle (no model involved): every datagram from an IPv4 exporter with 28+len <= min(mtu, 65535) arrives at
 // the target exactly once, as the packet verifMirrorOracle accepts, whatever was refused or dropped before
 // it; nothing else arrives; with one worker the arrival order is the input order; the mirror keeps taking
-// datagrams until the end of the stream (no post blocks, the dispatcher's queue drains); nothing panics.
+// datagrams until the end of the stream (no post blocks, the dispatcher's queue drains); nothing panics;
+// every buffer that went back into the protocol's pool (sent, refused or dropped) has max-udp-size octets again.
 
 import (
 	"bytes"
@@ -38,6 +39,7 @@ import (
 	"os/exec"
 	"strconv"
 	"strings"
+	"sync"
 	"syscall"
 	"testing"
 	"time"
@@ -273,10 +275,34 @@ func verifRunMirrorSeqOnce(cp *verifCapture, c verifSeqCase, patience time.Durat
 		return strings.TrimSpace(fmt.Sprintf("n=%d %s", len(out), strings.Join(out, " "))), "ok noraw-fallback"
 	}
 
+	// a pool of its own for the case, without New: what is in it afterwards was put there by the mirror
 	if c.proto == "ipfix" {
 		opts.IPFIXUDPSize = c.max
+		ipfixBuffer = &sync.Pool{}
+		defer func() {
+			ipfixBuffer = &sync.Pool{New: func() interface{} { return make([]byte, opts.IPFIXUDPSize) }}
+		}()
 	} else {
 		opts.SFlowUDPSize = c.max
+		sFlowBuffer = &sync.Pool{}
+		defer func() {
+			sFlowBuffer = &sync.Pool{New: func() interface{} { return make([]byte, opts.SFlowUDPSize) }}
+		}()
+	}
+	pooled := func() string {
+		pool := ipfixBuffer
+		if c.proto != "ipfix" {
+			pool = sFlowBuffer
+		}
+		for {
+			b, ok := pool.Get().([]byte)
+			if !ok {
+				return ""
+			}
+			if len(b) != c.max {
+				return fmt.Sprintf("fail:pool a buffer of %d octets was put back into the pool (max-udp-size %d)", len(b), c.max)
+			}
+		}
 	}
 	if verifPrivateNS {
 		if err := verifLoMTU(c.mtu); err != nil {
@@ -490,12 +516,15 @@ func verifRunMirrorSeqOnce(cp *verifCapture, c verifSeqCase, patience time.Durat
 		verifNoRaw = true
 		return verifRunMirrorSeqOnce(cp, c, patience)
 	}
+	poolVerdict := pooled()
 	if !v4target {
 		switch {
 		case !c.disp:
 			return "v6", ""
 		case left != 0 || stuckAt >= 0:
 			return "v6", fmt.Sprintf("fail:queue-stuck the dispatcher stopped taking datagrams: %d of %d left in its queue", left, len(c.dgrams))
+		case poolVerdict != "":
+			return "v6", poolVerdict
 		}
 		return "v6", "ok"
 	}
@@ -580,6 +609,9 @@ func verifRunMirrorSeqOnce(cp *verifCapture, c verifSeqCase, patience time.Durat
 	}
 	if left != 0 || stuckAt >= 0 {
 		return impl, fmt.Sprintf("fail:queue-stuck the mirror stopped taking datagrams (at #%d, %d left in its queue)", stuckAt, left)
+	}
+	if poolVerdict != "" {
+		return impl, poolVerdict
 	}
 	return impl, "ok"
 }
